@@ -81,15 +81,15 @@ func buildSim() {
 
 // childResult is what running one simulation process produced.
 type childResult struct {
-	rec      *scen.RunRecord
-	exit     int
-	stderr   string
-	crashed  bool   // Go panic / fatal error inside the system under test
-	crashSig string // first line of the panic
+	rec       *scen.RunRecord
+	exit      int
+	stderr    string
+	crashed   bool   // Go panic / fatal error inside the system under test
+	crashSig  string // first line of the panic
 	crashHead string
-	timedOut bool
-	wall     time.Duration
-	dir      string
+	timedOut  bool
+	wall      time.Duration
+	dir       string
 }
 
 func runChild(in *scen.RunInput, wallLimit time.Duration, gomaxprocs int) *childResult {
